@@ -39,15 +39,51 @@ def reference_reject(line, sep, cp):
     return None
 
 
-def defects(rng, line, sep):
+def occurrences(line, sep):
+    return [sum(1 for i in range(len(line)) if line.startswith(x, i)) if x else 0 for x in sep]
+
+
+def punct_variants(rng, tree, sep, style, chars=string.punctuation, tries=4):
+    """a punctuation mark (any of string.punctuation that does not complete a separator occurrence) at the start,
+    in the middle and at the end of a phone, and as a phone of its own"""
+    out = []
+    for place in ('start', 'middle', 'end', 'own'):
+        for _ in range(tries):
+            c = rng.choice(chars)
+            wi = rng.randrange(len(tree))
+            si = rng.randrange(len(tree[wi]))
+            pi = rng.randrange(len(tree[wi][si]))
+
+            def variant(ch):
+                t = [[list(s) for s in w] for w in tree]
+                ph = t[wi][si][pi]
+                if place == 'own':
+                    t[wi][si].insert(pi, ch)
+                else:
+                    t[wi][si][pi] = {'start': ch + ph, 'middle': ph[:1] + ch + (ph[1:] or ph), 'end': ph + ch}[place]
+                return sl.render(t, sep, style)
+            cand = variant(c)
+            # the mark must not create a separator occurrence: same counts as with a neutral letter in its place
+            if occurrences(cand, sep) == occurrences(variant('z'), sep):
+                out.append(('punctuation-' + place, cand))
+                break
+    return out
+
+
+def defects(rng, line, sep, tree=None, style=None):
     """single-defect variants of a well-formed line"""
     p, s, w = sep
     out = [('missing-final-wordsep', line[:len(line) - len(w)].rstrip() if line.endswith(w) else line)]
     out.append(('leading-wordsep', w + (' ' if p == ' ' else '') + line))
     if s:
         out.append(('leading-syllsep', s + (' ' if p == ' ' else '') + line))
+    if p:
+        # (a leading space is taken off by prepare's strip(): a defect for check_utterance only)
+        out.append(('leading-phonesep', p + line))
     pos = rng.randint(0, len(line))
     out.append(('punctuation', line[:pos] + rng.choice('!?.,') + line[pos:]))
+    if tree is not None:
+        out.extend(punct_variants(rng, tree, sep, style))
     # a stray punctuation mark that also occurs inside a separator (';' of ';esyll', '<' of '<w>')
     own = sorted({c for x in (p, s, w) if x for c in x if c in string.punctuation})
     for _ in range(3):
@@ -178,43 +214,68 @@ def main():
     cases = []
     ntexts = 400 if ck.thorough else 60
     cli = []
+    cli_pool = []      # (text, sep, defect name): candidates for the command line runs
     for k in range(ntexts):
         sep = SEPS[k % len(SEPS)]
         fam = ['ascii', 'ipa', 'multi'][k % 3]
         style = 'padded' if sep[0] == ' ' else 'compact'
-        good = []
+        good, gtrees = [], []
         for _ in range(rng.randint(1, 5)):
             t = sl.rand_tree(rng, sl.PHONES[fam])
             if sl.tree_ok(t, sep):
                 good.append(sl.render(t, sep, style))
+                gtrees.append(t)
         if not good:
             continue
         cp = rng.random() < 0.8
-        for l in good:
+        for l, t in zip(good, gtrees):
             cases.append(check_case(l, sep, cp, 'wellformed'))
-            for name, bad in defects(rng, l, sep):
+            for name, bad in defects(rng, l, sep, t, style):
                 if bad:
-                    cases.append(check_case(bad, sep, cp, 'defect-' + name))
-        # texts mixing well-formed lines with one defective variant at every position
+                    for cpx in ((True, False) if name.startswith('punctuation') else (cp,)):
+                        cases.append(check_case(bad, sep, cpx, 'defect-' + name))
+        # texts mixing well-formed lines with one defective variant: at every position when the text is short,
+        # at a random one otherwise
         base = list(good)
-        l0 = rng.choice(good)
-        for name, bad in defects(rng, l0, sep):
-            pos = rng.randint(0, len(base))
-            text = base[:pos] + [bad] + base[pos:]
-            if rng.random() < 0.5:
-                # blank lines anywhere, also before the defective line: they are skipped but counted
-                for _ in range(rng.randint(1, 2)):
-                    q = rng.randint(0, len(text))
-                    text = text[:q] + [rng.choice(['', ' ', '  '])] + text[q:]
-            unit = 'syllable' if sep[1] and rng.random() < 0.4 else 'phone'
-            for tol in (False, True):
-                cases.append(text_case(text, sep, unit, cp, tol, 'text-' + name))
-            if len(cli) < (160 if ck.thorough else 32):
-                cli.append(cli_case(text, sep, unit, cp, rng.random() < 0.6, rng.random() < 0.7, 'cli-' + name))
-            if name.startswith('punctuation') and k % 4 == 0:
-                # every option at once: tolerant, punctuation allowed, gold file
-                cli.append(cli_case(text, sep, unit, False, True, True, 'cli-tPg-' + name))
+        i0 = rng.randrange(len(good))
+        for name, bad in defects(rng, good[i0], sep, gtrees[i0], style):
+            every = len(base) <= 4 or ck.thorough
+            for pos in (range(len(base) + 1) if every else [rng.randint(0, len(base))]):
+                text = base[:pos] + [bad] + base[pos:]
+                if rng.random() < 0.5:
+                    # blank lines anywhere, also before the defective line: they are skipped but counted
+                    for _ in range(rng.randint(1, 2)):
+                        q = rng.randint(0, len(text))
+                        text = text[:q] + [rng.choice(['', ' ', '  '])] + text[q:]
+                unit = 'syllable' if sep[1] and rng.random() < 0.4 else 'phone'
+                for tol in (False, True):
+                    for cpx in ((True, False) if name.startswith('punctuation') else (cp,)):
+                        cases.append(text_case(text, sep, unit, cpx, tol, 'text-' + name))
+                cli_pool.append((text, sep, name))
         cases.append(text_case(base, sep, 'phone', cp, False, 'text-wellformed'))
+        cli_pool.append((base, sep, 'wellformed'))
+    # the command: every combination of (-t, -P, -g, unit) on a text with a punctuation mark and on a text with
+    # another defect (the first candidates of the pool that allow the unit), then random combinations
+    rng.shuffle(cli_pool)
+    combos = [(tol, cp, g, unit) for tol in (False, True) for cp in (True, False) for g in (False, True) for unit in ('phone', 'syllable')]
+    for want_punct in (True, False):
+        for tol, cp, g, unit in combos:
+            for i, (text, sep, name) in enumerate(cli_pool):
+                if name.startswith('punctuation') == want_punct and name != 'wellformed' and (unit == 'phone' or sep[1]):
+                    cli.append(cli_case(text, sep, unit, cp, tol, g, 'cli-%s%s%s%s-%s' % ('t' if tol else '', '' if cp else 'P', 'g' if g else '', unit[0], name)))
+                    del cli_pool[i]
+                    break
+    for text, sep, name in cli_pool[:(130 if ck.thorough else 12)]:
+        unit = 'syllable' if sep[1] and rng.random() < 0.4 else 'phone'
+        cli.append(cli_case(text, sep, unit, rng.random() < 0.6, rng.random() < 0.6, rng.random() < 0.7, 'cli-' + name))
+    # every punctuation character x placement x triple on a fixed tree
+    sweep_tree = [[['ka', 'to'], ['mi']], [['ne', 'so']]]
+    for sep in SEPS:
+        style = 'padded' if sep[0] == ' ' else 'compact'
+        for c in string.punctuation:
+            for name, bad in punct_variants(rng, sweep_tree, sep, style, chars=c, tries=1):
+                for cpx in (True, False):
+                    cases.append(check_case(bad, sep, cpx, 'sweep-' + name))
     # run the command line cases 16-wide
     with ThreadPoolExecutor(max_workers=16) as ex:
         results = list(ex.map(lambda c: run_cli(c['desc']['text'], c['desc']['sep'], c['desc']['unit'], c['desc']['check_punctuation'],
@@ -228,9 +289,11 @@ def main():
     nre, problems = ck.coq_recheck()
     finish_proof_failures(ck, failures + problems)
     return ck.finish(
-        rule='%d draws of well-formed renderings (4 separator triples, compact/padded) with every single-defect variant (missing final word separator, leading word/syllable separator, '
-             'punctuation mark, missing word-final syllable separator, blank line, separators only) through check_utterance; texts with one defect at a random position through prepare '
-             'in strict and tolerant mode x check_punctuation x unit; %d runs of python -m wordseg.prepare with/without -t and -g. Non-trivial = a rejected line / an error / a dropped line.'
+        rule='%d draws of well-formed renderings (4 separator triples, compact/padded) with every single-defect variant (missing final word separator, leading word/syllable/phone separator, '
+             'punctuation mark drawn from string.punctuation at the start/middle/end of a phone and as a phone of its own, missing word-final syllable separator, blank line, separators only) '
+             'through check_utterance; texts with one defect at every position (texts of up to 4 lines; a random position in longer ones) through prepare in strict and tolerant mode x check_punctuation x unit; '
+             'a sweep of every punctuation character x placement x triple; %d runs of python -m wordseg.prepare covering every combination of -t, -P, -g and -u twice. '
+             'Non-trivial = a rejected line / an error / a dropped line.'
              % (ntexts, len(cli)))
 
 
